@@ -46,6 +46,7 @@ class Report:
         self.nontrivial = set()
         self.floors_checked = []
         self.extra = {}
+        self.broken = []        # checker-liveness controls that misbehaved (thorough tier)
 
     def rule(self, name, desc):
         self.rules[name] = desc
@@ -199,7 +200,13 @@ def run_property(pid, tier, replay=None, repo=None):
         if f.site:
             print("    at %s" % f.site)
         print("VIOLATION property=%s replay=%s" % (pid, rp))
-    return 1 if violations else 0
+    if violations:
+        return 1
+    if rep.broken:
+        for b in rep.broken:
+            print("CHECK-BROKEN property=%s %s" % (pid, b))
+        return 3
+    return 0
 
 
 def main(argv):
